@@ -286,6 +286,61 @@ pub fn opt_history_independent<const H: usize, const N: usize, const START: usiz
     std::mem::forget(used);
 }
 
+// ---------------------------------------------------------------------------------------------
+// MatcherDataView::setup, the first phase of fuzzy_match_optimal, against its own contract on a
+// code-point haystack (the only representation for which it can return false).
+//   requires (call site in fuzzy_match_optimal after prefilter_non_ascii): 2 <= N <= H, the view was
+//     just allocated for (window, N) from a slab holding ARBITRARY earlier content, window[0] matches
+//     needle[0] and window[H-1] matches the last needle character
+//   ensures: returns true <=> the needle is a normalised subsequence of the window; the window copy
+//     is normalised and bonus[i] is the position bonus of i; when true, row_offs[k] is the position of
+//     needle[k] in the leftmost embedding for EVERY k < N (what populate_matrix and the trace-back
+//     index with -- an entry left unwritten is stale scratch memory)
+// The haystack is `[char; H]` holding ASCII values: the generic code under contract is the
+// `H = char` instantiation, the character-level functions stay on their ASCII fast path.
+// ---------------------------------------------------------------------------------------------
+pub fn opt_setup_char<const H: usize, const N: usize, const K: u8>() {
+    let hb: [u8; H] = kani::any();
+    let needle: [u8; N] = kani::any();
+    kani::assume(all_ascii(&hb));
+    let mut hay = ['\0'; H];
+    let mut i = 0;
+    while i < H {
+        hay[i] = hb[i] as char;
+        i += 1;
+    }
+    let (cfg, kind) = sym_config(K);
+    kani::assume(needle_normalized_ascii(&needle, &cfg));
+    let n = ascii(&needle);
+    kani::assume(matches(hay[0], n[0], &cfg) && matches(hay[H - 1], n[N - 1], &cfg));
+    let mut m = small_matcher(cfg.clone(), SLAB);
+    let junk: [u8; 128] = kani::any();
+    unsafe { std::ptr::copy_nonoverlapping(junk.as_ptr(), crate::matrix::verif_matrix::slab_ptr(&m.slab), 128) };
+    let mut view = m.slab.alloc(&hay[..], N).unwrap();
+    let r = view.setup::<true, AsciiChar>(n, cfg.initial_char_class, &cfg, 0);
+    let expect = spec_subseq(&hay[..], n, &cfg);
+    assert!(r == expect, "setup reports a match exactly when the needle is a normalised subsequence of the window");
+    let mut i = 0;
+    while i < H {
+        assert!(view.haystack[i] == crate::chars::Char::normalize(hay[i], &cfg), "the window copy is normalised");
+        assert!(view.bonus[i] as u16 == spec_bonus_at(&hay[..], i, &cfg, kind), "bonus[i] is the position bonus of i");
+        i += 1;
+    }
+    if r {
+        let mut pos = 0;
+        let mut k = 0;
+        while k < N {
+            let p = first_match(&hay[..], n[k], pos, &cfg);
+            assert!(p.is_some() && view.row_offs[k] as usize == p.unwrap(), "row_offs[k] is the position of needle[k] in the leftmost embedding, for every k");
+            pos = p.unwrap() + 1;
+            k += 1;
+        }
+    }
+    kani::cover!(r);
+    kani::cover!(!r);
+    std::mem::forget(m);
+}
+
 /// canary: must FAIL
 pub fn opt_canary() {
     let i = inputs::<4, 2, 0, 0>();
